@@ -541,6 +541,7 @@ Inductive op :=
 | OMinus (ats : list Z)             (* self - ats *)
 | OAug (ats : list Z) (deep : nat)  (* self.augmented_substructure(ats, deep) *)
 | OSplit                            (* self.split(): the parts become live molecules, the last one first *)
+| OSubH (ats : list Z)              (* self.substructure(ats, recalculate_hydrogens=False) *)
 | OSwap                             (* continue with the first of the other live molecules *)
 | OFlush (ks kc : bool)
 | OEnter | OExitOk | OExitExn
@@ -588,12 +589,13 @@ Definition union (rmp cp : bool) (s : state) : state * option pyexn :=
   end.
 
 (* substructure(ats) of the current molecule becomes the first of the other live molecules *)
-Definition sub_step (ats : list Z) (s : state) : state * option pyexn :=
-  match substructure ats (s_heap s) (s_cur s) with
+Definition sub_step_g (rh : bool) (ats : list Z) (s : state) : state * option pyexn :=
+  match substructure_g rh ats (s_heap s) (s_cur s) with
   | Err e => (s, Some e)
   | Ok (h, o, None) => (mkS h (s_cur s) (o :: s_others s), None)
   | Ok (h, _, Some e) => (mkS h (s_cur s) (s_others s), Some e)      (* the half-made object is dropped *)
   end.
+Definition sub_step : list Z -> state -> state * option pyexn := sub_step_g true.
 (* [self.substructure(c, recalculate_hydrogens=False) for c in self.connected_components]; old = the other live molecules before
    the call (an exception drops the parts made so far) *)
 Fixpoint split_loop (cs : list (list Z)) (s : state) (old : list mobj) : state * option pyexn :=
@@ -642,6 +644,7 @@ Definition step (s : state) (p : op) : state * option pyexn :=
            | Err e => (s, Some e)
            | Ok c => sub_step c s
            end
+  | OSubH ats => sub_step_g false ats s
   | OSplit => let s1 := fst (lift (read Kcc) s) in split_loop (comps (o_adj (s_cur s1))) s1 (s_others s1)
   | OSwap => match s_others s with
              | [] => (s, None)
